@@ -93,19 +93,47 @@ pub struct Scenario {
 pub struct Bundle {
     pub members: Vec<usize>,
     pub collect_order: Vec<usize>,
+    /// the members live in a registry of their own (no prefix, no labels) and `collect()` is a gather() of that registry, made
+    /// from inside the outer gather on the same thread ("expose a sub-registry as one collector")
+    pub nested: bool,
+}
+
+/// Prefix of the registries that nested composite collectors gather (it collides with no name of the pool).
+pub const NESTED_PREFIX: &str = "nested";
+
+impl Scenario {
+    /// The scenario as the outer registry exposes it: members of a nested composite collector appear under the prefix of
+    /// their own registry; composite collectors as such leave no trace.
+    pub fn effective(&self) -> Scenario {
+        let mut e = self.clone();
+        for b in &self.bundles {
+            if b.nested {
+                for &m in &b.members {
+                    e.colls[m].name = format!("{}_{}", NESTED_PREFIX, self.colls[m].name);
+                }
+            }
+        }
+        e.bundles.clear();
+        e
+    }
 }
 
 struct BundleColl {
     parts: Vec<Box<dyn Collector>>,
     order: Vec<usize>,
+    descs: Vec<prometheus::core::Desc>,
+    sub: Option<Registry>,
 }
 
 impl Collector for BundleColl {
     fn desc(&self) -> Vec<&prometheus::core::Desc> {
-        self.parts.iter().flat_map(|p| p.desc()).collect()
+        self.descs.iter().collect()
     }
     fn collect(&self) -> Vec<prometheus::proto::MetricFamily> {
-        self.order.iter().flat_map(|&i| self.parts[i].collect()).collect()
+        match &self.sub {
+            Some(r) => r.gather(),
+            None => self.order.iter().flat_map(|&i| self.parts[i].collect()).collect(),
+        }
     }
 }
 
@@ -291,7 +319,7 @@ pub fn gen_scenario(src: &mut Src, allow_mixed: bool) -> Scenario {
             let p = src.perm(members.len());
             let members: Vec<usize> = p.iter().map(|&k| members[k]).collect();
             let collect_order = src.perm(members.len());
-            bundles.push(Bundle { members, collect_order });
+            bundles.push(Bundle { members, collect_order, nested: src.chance(64) });
         }
     }
     Scenario { colls, prefix, common, bundles }
@@ -467,8 +495,16 @@ pub fn build_h(s: &Scenario, order: &[usize]) -> Result<(Registry, Vec<Handle>),
                     handles[m] = h;
                     parts.push(c);
                 }
-                reg.register(Box::new(BundleColl { parts, order: bundle.collect_order.clone() }))
-                    .map_err(|e| format!("register bundle {:?}: {}", bundle, e))?
+                let descs: Vec<prometheus::core::Desc> = parts.iter().flat_map(|p| p.desc().into_iter().cloned()).collect();
+                let mut coll = BundleColl { parts, order: bundle.collect_order.clone(), descs, sub: None };
+                if bundle.nested {
+                    let sub = Registry::new_custom(Some(NESTED_PREFIX.to_string()), None).map_err(|e| e.to_string())?;
+                    for p in coll.parts.drain(..) {
+                        sub.register(p).map_err(|e| format!("register a member of {:?} in its own registry: {}", bundle, e))?;
+                    }
+                    coll.sub = Some(sub);
+                }
+                reg.register(Box::new(coll)).map_err(|e| format!("register bundle {:?}: {}", bundle, e))?
             }
             Some(_) => {}
         }
